@@ -1,0 +1,155 @@
+//go:build verif
+
+package jsonrpc
+
+import (
+	"fmt"
+	"sort"
+	"sync"
+	"sync/atomic"
+
+	"github.com/gorilla/websocket"
+)
+
+// Verification hooks. Only compiled with -tags verif; nothing here is used by
+// the library itself. A harness installs a sink with VerifSetSink; every
+// vpoint call site then reports (and may be delayed or parked by) the sink.
+
+// VerifSink receives one event per vpoint. conn is a small integer identifying
+// the wsConn (0 when the point does not belong to a websocket connection),
+// role is "client", "server" or "".
+type VerifSink func(conn int, role string, ev string, kv []interface{})
+
+var verifSink atomic.Value // VerifSink
+
+var (
+	verifConnLk  sync.Mutex
+	verifConnIDs = map[*wsConn]int{}
+	verifConns   = map[int]*wsConn{}
+	verifConnCtr int
+)
+
+// VerifSetSink installs (or, with nil, removes) the sink.
+func VerifSetSink(s VerifSink) {
+	verifSink.Store(s)
+}
+
+func verifConnID(c *wsConn) int {
+	verifConnLk.Lock()
+	defer verifConnLk.Unlock()
+	id, ok := verifConnIDs[c]
+	if !ok {
+		verifConnCtr++
+		id = verifConnCtr
+		verifConnIDs[c] = id
+		verifConns[id] = c
+	}
+	return id
+}
+
+// VerifForget drops the connection registry (between scenarios).
+func VerifForget() {
+	verifConnLk.Lock()
+	defer verifConnLk.Unlock()
+	verifConnIDs = map[*wsConn]int{}
+	verifConns = map[int]*wsConn{}
+}
+
+func vpoint(c interface{}, ev string, kv ...interface{}) {
+	s, _ := verifSink.Load().(VerifSink)
+	if s == nil {
+		return
+	}
+	conn, role := 0, ""
+	if wc, ok := c.(*wsConn); ok && wc != nil {
+		conn = verifConnID(wc)
+		if wc.stop != nil {
+			role = "client"
+		} else {
+			role = "server"
+		}
+	}
+	s(conn, role, ev, kv)
+}
+
+// VerifID renders a request id the way traces carry it ("n:5", "s:abc", "nil").
+func VerifID(id interface{}) string {
+	switch v := id.(type) {
+	case nil:
+		return "nil"
+	case string:
+		return "s:" + v
+	case float64:
+		return fmt.Sprintf("n:%v", v)
+	case int64:
+		return fmt.Sprintf("n:%v", v)
+	default:
+		return fmt.Sprintf("x:%v", v)
+	}
+}
+
+// VerifSnap is a projection of a wsConn's tables, taken under their locks.
+type VerifSnap struct {
+	Inflight     []string
+	Handling     []string
+	ChanHandlers []uint64
+	IncomingErr  bool
+	ExecQueue    int
+}
+
+// VerifSnapshot projects the state of connection conn (as numbered by the sink).
+func VerifSnapshot(conn int) (VerifSnap, bool) {
+	verifConnLk.Lock()
+	c, ok := verifConns[conn]
+	verifConnLk.Unlock()
+	if !ok {
+		return VerifSnap{}, false
+	}
+	var s VerifSnap
+	c.inflightLk.Lock()
+	for id := range c.inflight {
+		s.Inflight = append(s.Inflight, VerifID(id))
+	}
+	c.inflightLk.Unlock()
+	c.handlingLk.Lock()
+	for id := range c.handling {
+		s.Handling = append(s.Handling, VerifID(id))
+	}
+	c.handlingLk.Unlock()
+	c.chanHandlersLk.Lock()
+	for id := range c.chanHandlers {
+		s.ChanHandlers = append(s.ChanHandlers, id)
+	}
+	c.chanHandlersLk.Unlock()
+	c.errLk.Lock()
+	s.IncomingErr = c.incomingErr != nil
+	c.errLk.Unlock()
+	s.ExecQueue = len(c.frameExecQueue)
+	sort.Strings(s.Inflight)
+	sort.Strings(s.Handling)
+	sort.Slice(s.ChanHandlers, func(i, j int) bool { return s.ChanHandlers[i] < s.ChanHandlers[j] })
+	return s, true
+}
+
+// VerifWriteLocked reports whether the connection's write lock is currently held.
+func VerifWriteLocked(conn int) bool {
+	verifConnLk.Lock()
+	c, ok := verifConns[conn]
+	verifConnLk.Unlock()
+	if !ok {
+		return false
+	}
+	if c.writeLk.TryLock() {
+		c.writeLk.Unlock()
+		return false
+	}
+	return true
+}
+
+// WithVerifConnFactory exposes the (test-only) connection factory wrapper so a
+// harness can gate and observe dials.
+func WithVerifConnFactory(f func(func() (*websocket.Conn, error)) func() (*websocket.Conn, error)) Option {
+	return func(c *Config) {
+		c.proxyConnFactory = f
+	}
+}
